@@ -50,7 +50,14 @@ def compare_case(ctx, case, exp):
     exp_lpt = [[a * unit, r] for a, r in exp_lpt]
     for which in COPIES:
         for rank in case.get("ranks", [0]):
-            real = adapter.real_assignment(which, numels, itemsize, G, rank, lpt_only=unit != 1)
+            try:
+                real = adapter.real_assignment(which, numels, itemsize, G, rank, lpt_only=unit != 1)
+            except Exception as ex:  # noqa - the code under test failed on a valid input
+                ok = False
+                ctx.violation(f"{which}: assignment / buffer construction raised {type(ex).__name__}: {str(ex)[:120]} on "
+                              f"{ {k: (v if k != 'numels' or len(v) < 12 else str(v[:12]) + '...') for k, v in case.items()} }",
+                              {"kind": "assign_oracle", "copy": which, "clause": "raised"}, {"case": case})
+                continue
             if real["lpt"] != exp_lpt:
                 ok = False
                 ctx.violation(f"{which}: assignment differs from spec on {case}: expected {exp_lpt}, observed {real['lpt']}",
